@@ -73,3 +73,13 @@ Proof.
   exists [st_reject; st_ok], 3, 0%nat, 3, st_reject, (fun _ => GReject).
   vm_compute. repeat split; auto; discriminate.
 Qed.
+
+(* two stages that share a name (class 0 for both), the first gated shut, through run_parallel: the rows of the
+   two results are told apart by status only; the verdict row is that of the index observation (not successful) *)
+Example ex_par_duplicate_names :
+  let c : case := (true, true, (10#1)%Q,
+                   [(CConst GReject, PAff 2 1, HNone, true, (4#1)%Q); (CNone, PAff 2 1, HNone, true, (4#1)%Q)], 3) in
+  run_case_named (c, [0; 0]) =
+    [[0; 0; 0; -1; 1]; [1; 1]; [2]; [0; 0; 1; 4; 1]; [0; 3; 0; 1; 1]; [0; 0; 3]; [1; 1; 3]; [-5]]
+  /\ hd [] (run_case c) = [0; 0; 0; -1; 1].
+Proof. vm_compute. split; reflexivity. Qed.
